@@ -125,7 +125,10 @@ RegCtx(w, g) == IF "dm-service-owner-is-evaluator-name" \in flags /\ sub = "dm" 
                 THEN w.G[g].c \o "!run" ELSE w.G[g].c
 Refused(d) == "dm-service-multi-arg-rejected" \in flags /\ sub = "dm" /\ d.sf = "args" /\ Cardinality(d.svc) >= 2
 Conflict(w, g) == \E s \in w.G[g].d.svc : w.own[s] \notin {NoOwner, RegCtx(w, g)}
-Declarers(w, s) == { h \in 1..Len(w.G) : IsActive(w.G[h].s) /\ s \in w.G[h].d.svc }
+\* a generation whose deactivation is pending still holds its registrations in dm (everything goes at
+\* StopDeferred) but not in legacy (released at once, only the task remains)
+HoldsTables(st) == st \in {"live", "zombie"} \/ (st = "pending" /\ sub = "dm")
+Declarers(w, s) == { h \in 1..Len(w.G) : HoldsTables(w.G[h].s) /\ s \in w.G[h].d.svc }
 
 \* start the triggers and register the services of g (register: count + 1, HA holds g's callback)
 Activate(w, g, zombie) ==
@@ -232,6 +235,13 @@ Apply(b1, k1, newG, stopC, startC, delayedStart) ==
       /\ bind' = b1 /\ cont' = k1
 
 NewGen(c, d, via) == [c |-> c, d |-> d, via |-> via, s |-> "new", su |-> 0, sd |-> 0]
+\* A Jupyter cell is evaluated with auto-start off and the context is started after the cell: in dm the new
+\* definition's manager starts only then, i.e. AFTER the generation it replaces has been stopped (legacy registers
+\* services at definition time in every case).  Without deviations the result is the same.
+CellDelays(c) == c = Session /\ sub = "dm"
+\* (a closure created inside a running function is not created by a cell: it starts at once)
+ExecGen(c, d, via) == IF CellDelays(c) /\ via = "exec" THEN [NewGen(c, d, via) EXCEPT !.s = "delayed"] ELSE NewGen(c, d, via)
+ExecStart(c, via) == IF CellDelays(c) /\ via = "exec" THEN {c} ELSE {}
 \* cross-context conflicts are generated only for declarations with ONE service (what happens to the other
 \* decorators of a refused function is not specified and differs between the subsystems)
 OwnedElsewhere(c, s) == own[s] \notin {NoOwner, c, c \o "!run"}
@@ -242,7 +252,7 @@ ExecOK(c) == started /\ c \in loaded
 Define(c, n, d) ==        \* def / redefinition of global name n (top level statement, Jupyter cell)
   /\ "define" \in Acts /\ ExecOK(c) /\ Len(G) < MaxGen /\ ConflictOK(c, d)
   /\ Step([a |-> "define", c |-> c, n |-> n, d |-> d, g |-> Len(G) + 1])
-  /\ Apply([bind EXCEPT ![c][n] = Len(G) + 1], cont, <<NewGen(c, d, "exec")>>, {}, {}, FALSE)
+  /\ Apply([bind EXCEPT ![c][n] = Len(G) + 1], cont, <<ExecGen(c, d, "exec")>>, {}, ExecStart(c, "exec"), FALSE)
   /\ UNCHANGED <<started, unloaded, loaded>>
 
 Del(c, n) ==
@@ -264,7 +274,7 @@ Push(c, d, where, via) ==
   /\ via = "run" => d.tt = {} /\ Cardinality(d.svc) <= 1
   /\ Step([a |-> "push", c |-> c, d |-> d, where |-> where, via |-> via, g |-> Len(G) + 1])
   /\ Apply(bind, IF where = "L" THEN [cont EXCEPT ![c].L = Append(@, Len(G) + 1)] ELSE [cont EXCEPT ![c].D = Len(G) + 1],
-           <<NewGen(c, d, via)>>, {}, {}, FALSE)
+           <<ExecGen(c, d, via)>>, {}, ExecStart(c, via), FALSE)
   /\ UNCHANGED <<started, unloaded, loaded>>
 
 Pop(c) ==
@@ -439,7 +449,7 @@ HandlerIsLatestLiveDeclaration ==
                               hd[s] = IF ds = {} THEN 0 ELSE MaxOf(ds)
 NoTakeoverAcrossContexts ==
   \A s \in Svc : cnt[s] > 0 => /\ own[s] # NoOwner
-                               /\ \A g \in Gen : (IsActive(G[g].s) /\ s \in G[g].d.svc) => G[g].c = own[s]
+                               /\ \A g \in Gen : (HoldsTables(G[g].s) /\ s \in G[g].d.svc) => G[g].c = own[s]
 \* a refused declaration leaves the registry untouched (action form of "no takeover")
 RefusedLeavesRegistry ==
   [][(lastAct'.a \in {"define", "push"} /\ steps' = steps + 1)
